@@ -493,12 +493,28 @@ def save_score_midi(
             # key is a tuple (part_group, part, voice) that will be
             # converted into a (track, channel) pair.
             key = (pg, part, note.voice)
-            events[key][to_ppq(note.start.t)].append(
-                Message("note_on", note=note.midi_pitch, velocity=velocity)
-            )
-            events[key][to_ppq(note.start.t + note.duration_tied)].append(
-                Message("note_off", note=note.midi_pitch)
-            )
+            t_on = to_ppq(note.start.t)
+            t_off = to_ppq(note.start.t + note.duration_tied)
+            # Several keys may end up in the same track and channel, so the order
+            # of the events of one tick is fixed by a rank when the track is
+            # written: notes that end (0) go before zero-duration (grace) notes
+            # (1), which go before notes that start (2). Otherwise a note that
+            # starts where another note of the same pitch ends would be cut by
+            # the note off of that note.
+            if t_off > t_on:
+                events[key][t_on].append(
+                    (2, Message("note_on", note=note.midi_pitch, velocity=velocity))
+                )
+                events[key][t_off].append(
+                    (0, Message("note_off", note=note.midi_pitch))
+                )
+            else:
+                events[key][t_on].append(
+                    (1, Message("note_on", note=note.midi_pitch, velocity=velocity))
+                )
+                events[key][t_on].append(
+                    (1, Message("note_off", note=note.midi_pitch))
+                )
             event_keys[key] = True
 
     tr_ch_map = map_to_track_channel(list(event_keys.keys()), part_voice_assign_mode)
@@ -509,7 +525,7 @@ def save_score_midi(
         del events[key]
         tr, ch = tr_ch_map[key]
         for t, evs in evs_by_time.items():
-            events[tr][t].extend((ev.copy(channel=ch) for ev in evs))
+            events[tr][t].extend(((rank, ev.copy(channel=ch)) for rank, ev in evs))
 
     # figure out in which tracks to replicate the time/key signatures of each part
     part_track_map = partition(lambda x: x[0][1], tr_ch_map.items())
@@ -521,7 +537,7 @@ def save_score_midi(
         tracks = part_track_map[part]
         for tr in tracks:
             for t, me in m_events.items():
-                events[tr][t] = me + events[tr][t]
+                events[tr][t] = [(-1, m) for m in me] + events[tr][t]
 
     n_tracks = max(tr for tr, _ in tr_ch_map.values()) + 1
     tracks = [MidiTrack() for _ in range(n_tracks)]
@@ -530,14 +546,15 @@ def save_score_midi(
     # global effect. Instead of adding to each relevant track, like the key/time
     # sig events, we add them only to the first track
     for t, tp in tempos.items():
-        events[0][t].insert(0, tp)
+        events[0][t].insert(0, (-2, tp))
 
     for tr, events_by_time in events.items():
         t_prev = 0
         for t in sorted(events_by_time.keys()):
-            evs = events_by_time[t]
+            # stable sort: meta events first, then by the rank given above
+            evs = sorted(events_by_time[t], key=lambda x: x[0])
             delta = t - t_prev
-            for ev in evs:
+            for _, ev in evs:
                 tracks[tr].append(ev.copy(time=delta))
                 delta = 0
             t_prev = t
